@@ -799,6 +799,27 @@ Fixpoint drive (w : world) (sid : bytes) (fixed : bool) (fuel : nat) (s : st) : 
       end
   end.
 
+(* ---- host-based authentication: the decision (connection.py validate_host_based_auth) ----------------
+   The client CLAIMS a host name in its request.  Unless the server was configured with trust_client_host,
+   the name used to look the host key up in known_client_hosts is the one the SERVER resolves from the peer
+   address.  A trailing '.' of the claimed name is removed first.  [kh] = (host name, key) pairs trusted by
+   known_client_hosts; [sig_ok] = the signature verifies over string(session id) ++ request up to the client
+   user name; [user_ok] = SSHServer.validate_host_based_user(user, claimed host, client user).
+   (One attempt per connection: the sequencing of several attempts is not modelled, see the oracle.) *)
+Fixpoint strip_dot (h : bytes) : bytes :=
+  match h with
+  | [] => []
+  | [c] => if c =? 46 then [] else [c]
+  | c :: r => c :: strip_dot r
+  end.
+Definition hb_lookup_host (trust_client : bool) (claimed resolved : bytes) : bytes :=
+  if trust_client then strip_dot claimed else resolved.
+Definition hb_trusted (kh : list (bytes * Z)) (h : bytes) (k : Z) : bool :=
+  existsb (fun e => zlist_eqb (fst e) h && (snd e =? k)) kh.
+Definition hb_decide (trust_client : bool) (claimed resolved : bytes) (kh : list (bytes * Z)) (k : Z)
+  (sig_ok user_ok : bool) : bool :=
+  hb_trusted kh (hb_lookup_host trust_client claimed resolved) k && sig_ok && user_ok.
+
 (* ---- the repair ----------------------------------------------------------------------------------
    [fixed = true] models /repo commit 208592d, this change of connection.py (SSHConnection._process_userauth_request):
 
